@@ -94,6 +94,16 @@ CONTRACTS = {
         fresh=["result[1]"],  # a hit hands out a COPY of the stored mapping (the caller pops the routing key from it)
         trace=[{"name": "C09 opt-in: a node without cache=True never touches the backend", "check": lambda tr, outcome, raised, env, ex, s: __import__("contracts.c_cache", fromlist=["x"]).optin(tr, outcome, raised, env, ex, s)}],
     ),
+    K + "store_in_cache": dict(
+        props=["C09", "C16"],
+        params={"node": OBJ("HyperNode"), "outputs": DICT(STR, ANY), "state": OBJ("GraphState"), "cache": ANY, "cache_key": STR},
+        returns=NONE_T,
+        may_raise={"Exception": True},   # the backend may fail
+        # the node's outputs handed to the run are never touched: the routing key is added to a COPY only
+        modifies=[],
+        trace=[{"name": "C09/C16 exactly one backend write, of a copy of the outputs (never the dict the run goes on to use)",
+                "check": lambda tr, outcome, raised, env, ex, s: __import__("contracts.c_cache", fromlist=["x"]).stores_copy(tr, outcome, raised, env, ex, s)}],
+    ),
     K + "restore_routing_decision": dict(
         props=["C09", "C16"],
         params={"node": OBJ("HyperNode"), "outputs": DICT(STR, ANY), "state": OBJ("GraphState")},
@@ -119,3 +129,17 @@ def optin(tr, outcome, raised, env, ex, s):
     node = env["node"]
     has = z3.Function("hasattr_cache", smt.V, z3.BoolSort())(node.t)
     return z3.And(has, smt.attr_func("cache")(node.t) == smt.TRUE)
+
+
+def stores_copy(tr, outcome, raised, env, ex, s):
+    sets = [e for e in tr if e[0] == "call" and _nm(e[1]) == "set"]
+    if outcome == "return" and len(sets) != 1:
+        return False
+    if len(sets) > 1:
+        return False
+    if not sets:
+        return True
+    args = sets[0][2].get("args", [])
+    if len(args) != 2 or getattr(args[1], "t", None) is None:
+        return False
+    return args[1].t != env["outputs"].t
